@@ -277,6 +277,9 @@ def c08_cont_jobs(tier):
             for op in range(3):
                 for cfg in range(6):
                     jobs.append({"func": "verif_C08_views", "args": [op, kind, cfg], "tag": f"views op={op} kind={kind} cfg={cfg}"})
+            for r0 in (0, 1):
+                for left in (0, 1):
+                    jobs.append({"func": "verif_C08_views2", "args": [kind, r0, left]})
         jobs.append({"func": "verif_C08_dotpanic", "args": [kind]})
     return jobs
 
@@ -305,7 +308,7 @@ PROPS["C08"] = {
                 ("root/zz_verif_c08_cont.go", "zz_verif_c08_cont.go")],
     "mode": "fp", "intmode": "int",
     "jobs": c08_jobs,
-    "reach": ["C08-scalar", "C08-temp", "C08-vec", "C08-mat", "C08-views", "C08-dotpanic"],
+    "reach": ["C08-scalar", "C08-temp", "C08-vec", "C08-mat", "C08-views", "C08-views2", "C08-dotpanic"],
     "selftest_vars": ["a", "a.d", "a.h", "b", "b.d", "b.h", "r", "r.d", "r.h", "t", "t.d", "t.h", "s", "p", "x", "p.d", "x.d", "v", "v.d"],
     "bounds": {"quick": "containers: element-wise vector (length 3) and matrix (2x2) operations and MdotM with the receiver being the first, second or both operands, dense and sparse Float64/Real64, zero patterns enumerated; "
                         "MdotM/MaddM/MmulM with receiver and operands being views (Slice, T) of one 3x3 dense parent; MdotV/VdotM alias rejection; scalars: every operation of Real64/Real32 with the receiver aliasing the first, the second or both operands, generic and CONCRETE methods, "
